@@ -83,8 +83,9 @@ Fixpoint first_attempt (o : out) : option Z :=
 (* nothing but the dial loop's sleeps: no callback, attempt, write or close *)
 Definition quiet (o : out) : bool := forallb is_sleep o.
 
-(* the dial loop that is running, if any, can be ended by stop(): threaded flavours always
-   (loop condition), asyncio only when it is transport.connect_task *)
+(* the dial loop that is running, if any, is ended by stop() at once (asyncio: it is
+   transport.connect_task and gets cancelled).  Any other loop - threaded, or the first
+   asyncio loop run by start() - ends at its next loop test (`while transport.protocol`) *)
 Definition stoppable (s : st) : Prop := ct s = CIdle \/ cancellable s = true.
 
 (* parameters used by the Examples: reconnect_timeout = 0.5 s, call_later slack 0.1 s, in ticks of 1/1024 s *)
